@@ -4,7 +4,7 @@ patch=$1; pid=$2; tier=${3:-quick}
 wt=/tmp/wt/run_$$_$(basename $patch .diff)
 git -C /repo worktree add -q --detach $wt HEAD || exit 2
 ( cd $wt && git apply $patch ) || { echo "PATCH DOES NOT APPLY"; git -C /repo worktree remove --force $wt; exit 3; }
-cd /verif && VF_REPO=$wt /venv/bin/python -m vf.run $pid --tier $tier
+mkdir -p /tmp/wt/seed_evidence; cd /verif && VF_EVIDENCE_DIR=/tmp/wt/seed_evidence VF_REPO=$wt /venv/bin/python -m vf.run $pid --tier $tier
 rc=$?
 git -C /repo worktree remove --force $wt
 exit $rc
